@@ -20,8 +20,23 @@ enum Ctx {
     ElseBranch,
     ScriptCommand,
     Included,
+    /// a function whose body holds the site, called from inside a for body (two iterations)
+    FunctionCalledInLoop,
+    /// a function whose body holds a for loop (two iterations) around the site
+    LoopInFunction,
 }
-const CTXS: [Ctx; 8] = [Ctx::Top, Ctx::Function, Ctx::ForBody, Ctx::WhileBody, Ctx::IfBranch, Ctx::ElseBranch, Ctx::ScriptCommand, Ctx::Included];
+const CTXS: [Ctx; 10] = [
+    Ctx::Top,
+    Ctx::Function,
+    Ctx::ForBody,
+    Ctx::WhileBody,
+    Ctx::IfBranch,
+    Ctx::ElseBranch,
+    Ctx::ScriptCommand,
+    Ctx::Included,
+    Ctx::FunctionCalledInLoop,
+    Ctx::LoopInFunction,
+];
 
 #[derive(Clone, Copy, Debug, PartialEq, Eq, Hash)]
 struct Site {
@@ -127,6 +142,36 @@ fn build(sites: &[Site], exit_mode: u8, mode: RunMode, real_msg: &str) -> Built 
                 block.push("end".into());
                 block.push(format!("fun{}", i));
             }
+            Ctx::FunctionCalledInLoop => {
+                block.push(format!("fn fun{}", i));
+                pad(&mut block);
+                site_idx = block.len();
+                block.push(line);
+                block.extend(probes(i));
+                block.push("end".into());
+                block.push(format!("arr{} = array one two", i));
+                block.push(format!("for it{} in ${{arr{}}}", i, i));
+                block.push(format!("fun{}", i));
+                block.push(format!("cnt{} = set \"${{cnt{}}}x\"", i, i));
+                block.push("end".into());
+                block.push(format!("release ${{arr{}}}", i));
+                counters.push((format!("cnt{}", i), "xx".to_string()));
+            }
+            Ctx::LoopInFunction => {
+                block.push(format!("fn fun{}", i));
+                block.push(format!("arr{} = array one two", i));
+                block.push(format!("for it{} in ${{arr{}}}", i, i));
+                pad(&mut block);
+                site_idx = block.len();
+                block.push(line);
+                block.extend(probes(i));
+                block.push(format!("cnt{} = set \"${{cnt{}}}x\"", i, i));
+                block.push("end".into());
+                block.push(format!("release ${{arr{}}}", i));
+                block.push("end".into());
+                block.push(format!("fun{}", i));
+                counters.push((format!("cnt{}", i), "xx".to_string()));
+            }
             Ctx::ForBody => {
                 // two iterations: the loop must go on after the error
                 block.push(format!("arr{} = array one two", i));
@@ -207,8 +252,8 @@ fn build(sites: &[Site], exit_mode: u8, mode: RunMode, real_msg: &str) -> Built 
 
 pub fn bounds(tier: Tier) -> Value {
     match tier {
-        Tier::Quick => json!({"sites_per_program": 2, "contexts": 8, "error_kinds": 4, "leading_blank_lines": [0, 1, 2], "exit_on_error_schedules": 4, "run_modes": 3}),
-        Tier::Thorough => json!({"sites_per_program": 3, "contexts": 8, "error_kinds": 4, "leading_blank_lines": [0, 1, 2], "exit_on_error_schedules": 4, "run_modes": 3}),
+        Tier::Quick => json!({"sites_per_program": 2, "contexts": 10, "error_kinds": 4, "leading_blank_lines": [0, 1, 2], "exit_on_error_schedules": 4, "run_modes": 3}),
+        Tier::Thorough => json!({"sites_per_program": 3, "contexts": 10, "error_kinds": 4, "leading_blank_lines": [0, 1, 2], "exit_on_error_schedules": 4, "run_modes": 3}),
     }
 }
 
@@ -462,7 +507,7 @@ pub fn crash_sig(_case: &Value, kind: &str) -> String {
     kind.to_string()
 }
 
-pub const RULE: &str = "programs: every sequence of 1..k error sites, each site = context {top level, function body, for body, while body, if branch, else branch, inside a script-implemented library command, included file} x error kind {trigger_error, assert_error with a message containing a space, a real failing command, a message containing the literal text ${x}, a failing script-implemented command} x 0..2 blank/comment lines in front; each site assigns an output variable and is followed by get_last_error / get_last_error_line / get_last_error_source probes; x exit_on_error schedule {never, on from the start, turned on after the first site, on then off before the first site} x run mode {text, file, file that includes the file with the sites}. Oracle (error protocol): output variable 'false'; message, 1-based line and source file of the instruction the runner was executing (the caller's line for the script-implemented command, the included file's own path and line for included code); the latest error wins; the script reaches its last line and the enclosing blocks go on as written (a for body with two elements and a while body run twice, the else branch of an if whose then-branch failed does not run); under exit_on_error the run fails with Runtime(message, line, source) of the first error after it was turned on. evaluations = programs run";
+pub const RULE: &str = "programs: every sequence of 1..k error sites, each site = context {top level, function body, for body, while body, if branch, else branch, inside a script-implemented library command, included file, a function called from a loop, a loop inside a function} x error kind {trigger_error, assert_error with a message containing a space, a real failing command, a message containing the literal text ${x}, a failing script-implemented command} x 0..2 blank/comment lines in front; each site assigns an output variable and is followed by get_last_error / get_last_error_line / get_last_error_source probes; x exit_on_error schedule {never, on from the start, turned on after the first site, on then off before the first site} x run mode {text, file, file that includes the file with the sites}. Oracle (error protocol): output variable 'false'; message, 1-based line and source file of the instruction the runner was executing (the caller's line for the script-implemented command, the included file's own path and line for included code); the latest error wins; the script reaches its last line and the enclosing blocks go on as written (a for body with two elements and a while body run twice, the else branch of an if whose then-branch failed does not run); under exit_on_error the run fails with Runtime(message, line, source) of the first error after it was turned on. evaluations = programs run";
 pub const ASSUMPTIONS: &[&str] = &["the message of the real failing command is taken from running that command alone (differential)", "failing commands are not placed in condition position (an error raised by a condition is outside the property)"];
 pub const EXHAUSTIVE: bool = true;
 pub const WALL_CAP_S: (u64, u64) = (55, 1500);
